@@ -227,6 +227,11 @@ func (fr *Frame) evalExpr(sc *Scope, e Expr) Val {
 		if (a.K == KConst || a.K == KCondConst) && (b.K == KConst || b.K == KCondConst) && !isNilConst(a) && !isNilConst(b) {
 			return Val{K: KCondConst, C: []Term{c}, Elems: []Val{a, b}}
 		}
+		if isNilConst(a) && b.K == KNormal && b.T != nil {
+			a = fr.en.zero(b.T)
+		} else if isNilConst(b) && a.K == KNormal && a.T != nil {
+			b = fr.en.zero(a.T)
+		}
 		a, b = fr.coerce(a, b), fr.coerce(b, a)
 		m, ok := iteVal(c, a, b)
 		if !ok {
@@ -278,6 +283,13 @@ func (fr *Frame) evalUnary(sc *Scope, x *EUn) Val {
 			cfail("dereference of non-pointer in %s", ExprString(x))
 		}
 		return fr.load(sc.st, v, pt.Elem())
+	case "&":
+		// address of a struct- or array-typed field reached through a pointer (&p.f): its sub-object reference
+		if _, ok := v.T.Underlying().(*types.Pointer); ok && v.Nav && v.K == KNormal {
+			v.Nav = false
+			return v
+		}
+		cfail("& is supported on struct or array fields reached through a pointer only (%s)", ExprString(x))
 	}
 	cfail("unsupported unary operator %s", x.Op)
 	return Val{}
